@@ -390,21 +390,11 @@ def scenario(s, spec):
     threads = []
 
     def caller(name, proxy, kinds, nb_mask):
-        for i, kind in enumerate(kinds):
-            tag = "%s.%d" % (name, i)
-            rec = {"caller": name, "kind": kind, "remote": proxy is not lp, "result": None, "done": False}
-            obs["calls"][tag] = rec
+        pending = []
+
+        def finish(rec, fut_or_call):
             try:
-                meth = "ok" if kind == "badarg" else kind
-                payload = real_threading.Lock() if kind == "badarg" else None
-                if nb_mask[i % len(nb_mask)]:
-                    fut = getattr(proxy.rpc_nonblocking, meth)(tag, payload)
-                    rec["future"] = "%s/%s" % (fut.address.context_id, fut.address.object_id)
-                    dsched.FAKE_TIME.sleep(0)
-                    val = fut.wait()
-                else:
-                    rec["future"] = None
-                    val = getattr(proxy, meth)(tag, payload)
+                val = fut_or_call()
                 rec["result"] = ("value", repr(val))
             except QMI_MessageDeliveryException as e:
                 rec["result"] = ("delivery_error", str(e)[:60])
@@ -413,6 +403,29 @@ def scenario(s, spec):
             except BaseException as e:  # noqa
                 rec["result"] = ("exception", type(e).__name__)
             rec["done"] = True
+
+        for i, kind in enumerate(kinds):
+            tag = "%s.%d" % (name, i)
+            rec = {"caller": name, "kind": kind, "remote": proxy is not lp, "result": None, "done": False, "future": None}
+            obs["calls"][tag] = rec
+            meth = "ok" if kind == "badarg" else kind
+            payload = real_threading.Lock() if kind == "badarg" else None
+            if nb_mask[i % len(nb_mask)]:
+                try:
+                    fut = getattr(proxy.rpc_nonblocking, meth)(tag, payload)
+                except BaseException as e:  # noqa
+                    finish(rec, lambda e=e: (_ for _ in ()).throw(e))
+                    continue
+                rec["future"] = "%s/%s" % (fut.address.context_id, fut.address.object_id)
+                if spec.get("burst"):
+                    pending.append((rec, fut))
+                else:
+                    dsched.FAKE_TIME.sleep(0)
+                    finish(rec, fut.wait)
+            else:
+                finish(rec, lambda: getattr(proxy, meth)(tag, payload))
+        for rec, fut in pending:
+            finish(rec, fut.wait)
 
     s.recording = True
     for i, kinds in enumerate(spec["local"]):
